@@ -132,15 +132,29 @@ def _base_class(kind):
             "randKary": RandomKaryPartition}[kind]
 
 
+_INSTR_CLASSES = {}
+
+
 def make_partition_class(kind, K=3, rng=None, observer=None, pre_observer=None):
     """Subclass of the real partition class that (i) accepts the (domain, node) constructor
     signature the algorithms use while forwarding K, (ii) numbers nodes in creation order
     (`_vid`), keeps every node ever created in `_all`, and (iii) logs each make_children call
     with the random draws it consumed (`_calls`).  The real make_children does all the work."""
+    # one instrumented class per (kind, K) and process, re-armed for each case: a user hands the same partition class to
+    # every algorithm instance, and anything in the library that is keyed on the class must see that here too
+    key_ = (kind, K if kind in ("kary", "randKary") else 0)
+    if key_ in _INSTR_CLASSES:
+        Instr = _INSTR_CLASSES[key_]
+        Instr._rng = rng
+        Instr._observer = observer
+        Instr._pre_observer = pre_observer
+        Instr._glog = []
+        return Instr
     base = _base_class(kind)
     from PyXAB.partition.Node import P_node
 
     class Instr(base):
+        _rng = rng
         _kind = kind
         _K = K
         _observer = observer
@@ -167,6 +181,7 @@ def make_partition_class(kind, K=3, rng=None, observer=None, pre_observer=None):
                 created.append(nd)
                 return nd
 
+            rng = Instr._rng
             mark = len(rng.log) if rng is not None else 0
             was_leaf = parent.get_children() is None
             flag_ok = bool(newlayer) == (parent.get_depth() >= self.get_depth())
@@ -196,6 +211,7 @@ def make_partition_class(kind, K=3, rng=None, observer=None, pre_observer=None):
 
     Instr.__name__ = base.__name__
     Instr.__qualname__ = base.__qualname__
+    _INSTR_CLASSES[key_] = Instr
     return Instr
 
 
